@@ -707,3 +707,49 @@ Proof.
   - unfold mrun. cbn [fold_left last_cmd]. fold (mrun ops (mstate (mstep m op))).
     rewrite IH. rewrite ghost_meaning. reflexivity.
 Qed.
+
+(* ---- the ramp is linear ---- *)
+
+Lemma convex_bounds s g t : -(1) <= s -> s <= 1 -> -(1) <= g -> g <= 1 -> 0 <= t -> t <= 1 ->
+  -(1) <= s + (g - s) * t /\ s + (g - s) * t <= 1.
+Proof. intros. split; nra. Qed.
+
+Lemma in_zsteps n x : In x (zsteps n) -> (1 <= x <= Z.max n 0)%Z.
+Proof.
+  unfold zsteps. intro H. apply in_map_iff in H as (k & <- & Hk). apply in_seq in Hk. lia.
+Qed.
+
+Lemma ramp_point_linear start target k :
+  -(1) <= start -> start <= 1 -> -(1) <= target -> target <= 1 -> (0 <= k <= 20)%Z ->
+  ramp_point start ((target - start) / inject_Z 20) k == start + (target - start) * inject_Z k / 20.
+Proof.
+  intros H1 H2 H3 H4 Hk. unfold ramp_point. rewrite Qred_correct.
+  assert (Ht0 : 0 <= inject_Z k / 20).
+  { apply Qle_shift_div_l; [reflexivity|]. rewrite Qmult_0_l. change 0 with (inject_Z 0). rewrite <- Zle_Qle. lia. }
+  assert (Ht1 : inject_Z k / 20 <= 1).
+  { apply Qle_shift_div_r; [reflexivity|]. rewrite Qmult_1_l. change 20 with (inject_Z 20). rewrite <- Zle_Qle. lia. }
+  assert (E : start + (target - start) / inject_Z 20 * inject_Z k == start + (target - start) * (inject_Z k / 20)).
+  { change (inject_Z 20) with 20. field. }
+  destruct (convex_bounds start target (inject_Z k / 20) H1 H2 H3 H4 Ht0 Ht1) as [B1 B2].
+  rewrite (clampq_compat _ _ E). rewrite clampq_id by assumption. field.
+Qed.
+
+Lemma Forall2_map_same {A B} (R : B -> B -> Prop) (f g : A -> B) l :
+  (forall x, In x l -> R (f x) (g x)) -> Forall2 R (map f l) (map g l).
+Proof.
+  induction l as [|x l IH]; intro H; cbn [map]; constructor.
+  - apply H. left. reflexivity.
+  - apply IH. intros y Hy. apply H. right. exact Hy.
+Qed.
+
+(* "Linearly ramp": step k of a ramp is start + (target - start) * k / 20, exactly *)
+Lemma ramp_linear m t d qt qd :
+  motor_inv m -> qof t = Some qt -> qof d = Some qd -> 0 <= qd ->
+  Forall2 Qeq (lvl_speeds (mevents (mstep m (MRamp t d))))
+              (map (fun k => speed m + (clampq qt - speed m) * inject_Z k / 20) (zsteps 20)).
+Proof.
+  intros Hinv Ht Hd Hd0. rewrite (mstep_ramp_ok m t d qt qd Ht Hd Hd0). rewrite ok_with_events.
+  rewrite ramp_loop_speeds. apply Forall2_map_same. intros k Hk. apply in_zsteps in Hk.
+  destruct Hinv as ((S1 & S2) & _). destruct (clampq_bounds qt) as [T1 T2].
+  apply ramp_point_linear; try assumption. lia.
+Qed.
